@@ -354,6 +354,9 @@ FAULTS = {
     "too-many-flow-arguments-await": (["await helper 1 2 3"], "slide"),
     "invalid-action-event": (["start UtteranceBotAction(script=None)"], "slide"),
     "invalid-action-event-await": (["$n = None", "await UtteranceBotAction(script=$n)"], "slide"),
+    # a faulty expression in a decorator of the flow (evaluated when the flow finishes)
+    "bad-meta-tag-expression": (['@meta(bot_intent="{$undefined_var.x}")'], "slide"),
+    "bad-meta-tag-expression-user-intent": (['@meta(user_intent="{1/0}")'], "slide"),
     "one-surplus-flow-argument": (["start helper 1 2"], "slide"),
     "one-surplus-flow-argument-await": (["await helper(1, 2)"], "slide"),
     "bad-if-condition": (["if 1/0", "  send Never1()"], "slide"),
@@ -373,7 +376,12 @@ def f_program(fault, pos, vstart):
     ev = {"at-start": "E1", "after-E1": "E2", "after-E2": "E3"}[pos]
     lines = [l.replace("{EV}", ev) for l in lines]
     seq = {"at-start": [], "after-E1": ["match E1()"], "after-E2": ["match E1()", "match E2()"]}[pos]
-    victim = "flow victim\n" + ind(seq + lines + ["send VictimAfter()", "match Never()"])
+    decorators = [l for l in lines if l.startswith("@")]
+    if decorators:
+        # the decorated victim simply finishes after its sequence (that is when the tag is evaluated)
+        victim = "\n".join(decorators) + "\nflow victim\n" + ind(seq + ["send VictimBody()"])
+    else:
+        victim = "flow victim\n" + ind(seq + lines + ["send VictimAfter()", "match Never()"])
     helper = "flow helper $a\n  match Never()\n"
     wrapper = "flow wrapper\n  await victim\n  send WrapperAfter()\n"
     by = '@loop("by")\nflow bystander\n  match E1()\n  send By1()\n  match E2()\n  send By2()\n  match E3()\n  send By3()\n  match Never()\n'
@@ -574,7 +582,9 @@ def run(rep, tier):
     run_e1(rep, me, tier)
     # ---- part F
     maxlen = 3 if tier == "quick" else 4
-    ts = [(f, p, s, maxlen) for f in FAULTS for p in POSITIONS for s in VICTIM_STARTS]
+    ts = [(f, p, s, maxlen) for f in FAULTS for p in POSITIONS for s in VICTIM_STARTS
+          # (an activated flow that ends without ever waiting is parked, not finished: its meta tags are not evaluated)
+          if not (f.startswith("bad-meta-tag") and p == "at-start" and s == "activate victim")]
     agg = {"programs": 0, "histories": 0, "events": 0, "fault_reached": 0, "bystander_reactions": 0}
     for r in par.pmap(fault_task, ts):
         for k in agg:
